@@ -281,7 +281,7 @@ def step(ctx, c, rng, op, oi, d, files, pool, hist, bt, bins, n, symm, runner, c
         k = int([2, 3, 5, 50][int(rng.integers(4))])
         cs = int([1, 3, 20, 10**7][int(rng.integers(4))])
         out = os.path.join(d, f"coarse{oi}.cool") + "::" + ["/", "/c"][int(rng.integers(2))]
-        npr = 2 if rng.random() < 0.15 else 1
+        npr = 2 if rng.random() < 0.35 else 1
         cooler.coarsen_cooler(src, out, k, chunksize=cs, nproc=npr)
         c.feature("op:coarsen", "coarsen:pool" if npr > 1 else "coarsen:seq")
         hist.append({"op": "coarsen", "src": rel(src), "factor": k, "chunksize": cs, "nproc": npr})
